@@ -118,6 +118,15 @@ GROUPS = {
 }
 
 
+def same_pos(got, exp):
+    """The position column yields a Position equal to the reference (a value of another class is never equal;
+    beancount's equality may raise on foreign operands)."""
+    try:
+        return type(got) is type(exp) and got == exp
+    except Exception:
+        return False
+
+
 def pos_of(p):
     return position.Position(p.units, p.cost)
 
@@ -618,7 +627,7 @@ def check_bal(led, wname, fname, pname, stats, total=None):
         for j, tok in enumerate(toks):
             stats['cells'] += 1
             if tok == 'P':
-                if r[j] != pos_of(p):
+                if not same_pos(r[j], pos_of(p)):
                     out.append(('balance:selection', f'{desc}: row {n} position {r[j]}, reference row has {pos_of(p)}'))
             elif tok == 'A':
                 if r[j] != p.account:
@@ -702,7 +711,7 @@ def check_balw(led, cname, pname, stats):
     for n, (r, (p, inv)) in enumerate(zip(got, exp)):
         for j, tok in enumerate(toks):
             stats['cells'] += 1
-            if tok == 'P' and r[j] != pos_of(p):
+            if tok == 'P' and not same_pos(r[j], pos_of(p)):
                 out.append(('balance:where', f'{desc}: row {n} is {r[j]}, reference selects {pos_of(p)}'))
             elif tok == 'B':
                 stats['balance_refs'] += 1
